@@ -28,7 +28,8 @@ ASSUMPTIONS = [
 SHAPES_Q = [(2,), (3,), (2, 2), (3, 2), (2, 2, 2)]
 SHAPES_T = SHAPES_Q + [(3, 3), (2, 2, 2, 2)]
 KINDS = ["data", "null", "onevar", "partial", "inf"]
-PNAMES = ["b", "a", "d", "c"]
+# (two of them are also names of keyword options of Dataset.sel)
+PNAMES = ["b", "method", "a", "drop"]
 # the internal dimension: its name contains parameter names as substrings
 TDIM = "tab"
 # (unsorted, and with labels that are false as Python values: 0, 0.0, '')
@@ -259,6 +260,33 @@ def check_case(case):
                 vio.append((key("parse"),
                             "parse_into_cases reported %r, expected %r"
                             % (bad[:3], wantp[:3])))
+            # cases over the first two parameters, written as dicts whose keys
+            # come in alternating order, in an order that is not the grid's
+            if len(names) >= 2:
+                a1 = names[1]
+                pairs = [(x, y) for y in coords[a1][::-1] for x in coords[a0]]
+                dcases = [({a0: x, a1: y} if i % 2 == 0 else {a1: y, a0: x})
+                          for i, (x, y) in enumerate(pairs)]
+                rest = {a: list(coords[a]) for a in names[2:]}
+                wantd = []
+                for (x, y) in pairs:
+                    for setting in itertools.product(*rest.values()):
+                        full = dict({a0: x, a1: y}, **dict(zip(rest, setting)))
+                        if tuple(full[a] for a in fn_args) in wset:
+                            wantd.append(full)
+                try:
+                    resd = parse_into_cases(
+                        combos=copy.deepcopy(rest) or None,
+                        cases=copy.deepcopy(dcases), ds=ds, method=method)
+                    if [dict(sorted(r.items())) for r in resd] != [
+                            dict(sorted(r.items())) for r in wantd]:
+                        vio.append((key("parse-dict-cases"),
+                                    "parse_into_cases(cases as dicts with "
+                                    "keys in varying order) reported %r, "
+                                    "expected %r" % (resd[:3], wantd[:3])))
+                except Exception as e:
+                    vio.append((key("parse-raised:" + type(e).__name__),
+                                "parse_into_cases (dict cases) raised %r" % e))
             # the whole grid as combos only, then a query over fewer
             # parameters (one slice of the data) right afterwards
             queries = [(ds, list(names))]
